@@ -150,6 +150,18 @@ def explore(chk, rnd, tier):
                 sel = mutate(rnd, sel) if rnd.random() < 0.8 else random_string(rnd)
             for d in rnd.sample(pool_docs, 4) + [ragged, ragged2, ragged]:
                 cases.append((d, sel, "history"))
+        # several dimensions whose innermost one is a range that ends before the array does, over rectangular arrays with at
+        # least two rows: the chunks are sub-slices of the document itself, flattening must copy them
+        for _ in range(m // 25):
+            r, c, dd = rnd.randint(2, 4), rnd.randint(2, 4), rnd.randint(2, 3)
+            rect = {"grid": [[10 * i + j for j in range(c)] for i in range(r)],
+                    "cube": [[[100 * i + 10 * j + k for k in range(dd)] for j in range(c)] for i in range(r)]}
+            rng = lambda hi: "(%s:%d)" % (rnd.choice(["begin", "0", "1"]), rnd.randint(1, hi))
+            head, dims = rnd.choice([("grid", ["each", rng(c)]), ("grid", [rng(r), rng(c)]), ("cube", ["each", "each", rng(dd)]),
+                                     ("cube", ["each", rng(c)]), ("cube", [rng(r), "each", rng(dd)]), ("cube", ["each", rng(c), rng(dd)])])
+            sel = head + "[" + rnd.choice([",", ":", ", "]).join(dims) + "]"
+            cases.append((rect, sel, "sub-slice-dims"))
+            cases.append((rect, head + "[0]", "sub-slice-dims"))
         while len(cases) < m:
             doc = gen_doc(rnd)
             k = rnd.random()
